@@ -28,6 +28,13 @@ func c11(c *Ctx) {
 	ruleAnyFixedParks(c, "C11.R5")
 	c11R6(c)
 	c11R7(c)
+	// shared: the collector's verdict is published with the optimistic lock (C10.R7 / C10.R8) — a
+	// record rebound meanwhile is not reaped on a stale reading
+	c10R7(c)
+	ruleCASPublication(c, "C10.R8", "PodENI", map[string]string{
+		"Status.PodLastSeen": "a timestamp; the latest writer winning is the intent",
+		"Labels":             "node label follows the pod; no transition is decided on it",
+	})
 }
 
 func c11R1(c *Ctx) {
